@@ -38,7 +38,17 @@ type HIDIConfigRaw struct {
 	} `toml:"HIDI"`
 }
 
-func LoadHIDIConfig(path string) (HIDIConfig, error) {
+// recoverDecode turns a panic of the TOML decoder into an error: the decoder panics on some ill-typed values
+// (e.g. a date where a number is expected) instead of returning one.
+func recoverDecode(err *error) {
+	if r := recover(); r != nil {
+		*err = fmt.Errorf("parsing failed: %v", r)
+	}
+}
+
+func LoadHIDIConfig(path string) (result HIDIConfig, err error) {
+	defer recoverDecode(&err)
+
 	data, err := os.ReadFile(path)
 	if err != nil {
 		return HIDIConfig{}, fmt.Errorf("cannot read \"%s\" file: %w", path, err)
